@@ -109,6 +109,24 @@ def candidates(path, text):
                 indent = l[:len(l) - len(l.lstrip())]
                 out[st.lineno - 1] = indent + "pass"
                 yield ("del", st.lineno, "delete: %s" % s.strip()[:90], "\n".join(out))
+    # swap two adjacent single-line statements of a body
+    for node in ast.walk(tree):
+        for fld in ("body", "orelse", "finalbody"):
+            stmts = getattr(node, fld, None)
+            if not isinstance(stmts, list):
+                continue
+            for a, b in zip(stmts, stmts[1:]):
+                if a.lineno != a.end_lineno or b.lineno != b.end_lineno or b.lineno != a.lineno + 1:
+                    continue
+                if not isinstance(a, (ast.Expr, ast.Assign, ast.AugAssign, ast.Delete)) or \
+                        not isinstance(b, (ast.Expr, ast.Assign, ast.AugAssign, ast.Delete)):
+                    continue
+                sa, sb = seg(a) or "", seg(b) or ""
+                if sa.startswith("log.") or sb.startswith("log.") or (isinstance(a, ast.Expr) and isinstance(a.value, ast.Constant)):
+                    continue
+                out = list(lines)
+                out[a.lineno - 1], out[b.lineno - 1] = out[b.lineno - 1], out[a.lineno - 1]
+                yield ("swap", a.lineno, "swap: %s <-> %s" % (sa.strip()[:50], sb.strip()[:50]), "\n".join(out))
     # unary not on if-tests
     for node in ast.walk(tree):
         if isinstance(node, (ast.If, ast.While)) and node.test.lineno == node.test.end_lineno:
@@ -225,6 +243,7 @@ def main():
     runs = 1500
     out = "/tmp/automut_report.json"
     seed = 1
+    only_kinds = None
     i = 0
     while i < len(args):
         if args[i] == "--files":
@@ -238,6 +257,9 @@ def main():
             i += 2
         elif args[i] == "--out":
             out = args[i + 1]
+            i += 2
+        elif args[i] == "--kinds":
+            only_kinds = set(args[i + 1].split(","))
             i += 2
         elif args[i] == "--seed":
             seed = int(args[i + 1])
@@ -263,7 +285,7 @@ def main():
         text = open(os.path.join(REPO_SRC, rel)).read()
         seen = set()
         for (kind, lineno, desc, new) in candidates(rel, text):
-            if new == text or (lineno, desc) in seen:
+            if new == text or (lineno, desc) in seen or (only_kinds and kind not in only_kinds):
                 continue
             seen.add((lineno, desc))
             jobs.append([rel, kind, lineno, desc, new])
